@@ -15,6 +15,8 @@
                    of its `create` parameter, and returns `(None, _)` only under the false edge;
                    ObjectServer::remove passes the constant `false`, only ObjectServer::add_arc_interface
                    passes `true`; `get_child` takes `&self`.
+  PRUNE-EMPTY      the guard of Node::remove_node can be true only over the true edge of `children.is_empty()`
+                   (added after seeded change C24: a guard looking at direct children only still drops grandchildren)
   PRUNE-CHILDREN   every call of Node::remove_node (which drops a whole subtree) is control-dependent on a
                    predicate that reads `Node.children` (of the node about to be dropped).
   TREE-WRITERS     `Node.children` / `Node.interfaces` are borrowed mutably (or moved) only in the confirmed
@@ -483,6 +485,80 @@ def prune_children(ctx, f):
                "removing the last interface of a node deletes its descendants' registrations" % (guards or "nothing"), c.where)
 
 
+def implies_children_empty(f, fn_id, depth=0):
+    """The bool function `fn_id` can return true only over the true edge of `self.children.is_empty()` (or the equal
+    edge of `self.children.len() == 0`): with that edge removed, every assignment of the return value still reachable
+    stores the constant false. (Looks one level into zbus callees that are the only source of the return value.)"""
+    from .. import lib_cflow as cf
+    b = f.byid(fn_id)
+    if b is None or depth > 2:
+        return False, "no body"
+    edges = []
+    for sb, pc, tt, ft, neg in mir.call_bool_switches(b):
+        if pc.is_("is_empty") and ("HashMap" in pc.callee or "hash::map" in pc.callee or "BTreeMap" in pc.callee) and pc.args:
+            o = mir.origin(b, pc.args[0])
+            if o[0] in ("ref", "place") and "children" in mir.place_fields(o[1]) and tt is not None:
+                edges.append((sb, tt))
+    for sb, op, l, r, tt, ft, ln in mir.cmp_switches(b):
+        for x, y in ((l, r), (r, l)):
+            o = mir.origin(b, x)
+            k = mir.resolve_const(b, y)
+            if o[0] == "call" and o[1].is_("len") and o[1].args and k is not None and k.get("v") == 0:
+                oo = mir.origin(b, o[1].args[0])
+                if oo[0] in ("ref", "place") and "children" in mir.place_fields(oo[1]):
+                    e = tt if op == "Eq" else (ft if op in ("Ne", "Gt") else None)
+                    if e is not None:
+                        edges.append((sb, e))
+    if not edges:
+        # alternative that also preserves the property: the predicate recurses over the children (an entirely
+        # empty subtree may be pruned): it must mention itself (call or fn item passed to all/any) and read `children`
+        fam = [b] + [x for x in f.children.get(b.id, [])]
+        selfref = False
+        for x in fam:
+            for c in mir.calls(x):
+                if c.callee == fn_id or any((mir.op_const(a) or {}).get("fn") == fn_id for a in c.args):
+                    selfref = True
+        if selfref and reads_field(f, fn_id, NODE, "children"):
+            return True, "%s recurses over the children: only a subtree without any interface is pruned" % fn_id
+        return False, "no `children.is_empty()` / `children.len() == 0` test (and no recursion over the children) in %s" % fn_id
+    reach = cf.reach_e(b, [0], avoid_edges=edges)
+    for bi, i, pl, rv, ln in mir.assignments(b):
+        if pl[0] != mir.RET or pl[1] or bi not in reach:
+            continue
+        k = mir.resolve_const(b, rv[1]) if rv[0] == "use" else None
+        if k is None or k.get("v") is not False:
+            return False, "%s can return a non-false value without passing the `children` emptiness test (line %d)" % (fn_id, ln)
+    for c in mir.calls(b):
+        if c.dest[0] == mir.RET and not c.dest[1] and c.b in reach:
+            return False, "%s can return the result of %s without passing the `children` emptiness test" % (fn_id, c.callee)
+    return True, "%s is true only when `children` is empty" % fn_id
+
+
+def prune_needs_no_children(ctx, f):
+    """PRUNE-EMPTY: the guard under which Node::remove_node runs implies that the node has no children at all
+    (a test that only looks at *some* descendants lets deeper registrations disappear)."""
+    for b in f.all_bodies("zbus"):
+        for c in mir.calls(b):
+            if not (c.is_("remove_node") and NODE in c.callee):
+                continue
+            ok, why = False, "remove_node is not guarded by a bool function of the node"
+            for sb, pc, tt, ft, neg in mir.call_bool_switches(b):
+                if tt is None or not mir.block_dominates(b, tt, c.b) or (ft is not None and mir.block_dominates(b, ft, c.b)):
+                    continue
+                callee = pc.c.get("res") or pc.c.get("fn") or ""
+                if callee.startswith("zbus::"):
+                    ok2, why2 = implies_children_empty(f, callee)
+                    if ok2:
+                        ok, why = True, why2
+                    elif not ok:
+                        why = why2
+                elif pc.is_("is_empty") and pc.args:
+                    o = mir.origin(b, pc.args[0])
+                    if o[0] in ("ref", "place") and "children" in mir.place_fields(o[1]):
+                        ok, why = True, "guarded directly by children.is_empty()"
+            ctx.ob("PRUNE-EMPTY", b.root + ":remove_node-only-when-no-children", ok, why, c.where)
+
+
 def tree_writers(ctx, f):
     allowed = {
         "children": {NODE + "::get_child_mut": "walk / create on registration", NODE + "::remove_node": "pruning",
@@ -686,6 +762,7 @@ def run(ctx):
     absent(ctx, f)
     gcm, create_idx, none_ok = no_create(ctx, f)
     prune_children(ctx, f)
+    prune_needs_no_children(ctx, f)
     tree_writers(ctx, f)
     walk_sibling(ctx, f)
     lookup_fields(ctx, f)
